@@ -43,8 +43,9 @@
 //! wildcard's parent does not exist; `*`-owner answered "as expansion" with Labels = |qname|-1 (a
 //! plain positive answer); NSEC sets that are genuine in no candidate zone (inconsistent mixtures
 //! entail everything); Bogus/Insecure/Indeterminate verdicts of any kind (strictness); referrals and
-//! REFUSED end to end; CNAME chains with more than 8 RRsets end to end; DNAME (not modelled);
-//! TTLs, record order, case.
+//! REFUSED end to end; CNAME chains with more than 8 RRsets end to end; a response of the right shape
+//! whose records differ from RefAuth's and which the validator accepts (C10/C07 territory, counted);
+//! DNAME (not modelled); TTLs, record order, case.
 
 #[path = "../c10/refzone.rs"]
 mod refzone;
